@@ -361,6 +361,86 @@ pub fn corr(run: &mut Run) {
         }
     }
 
+    // ---- L: large leaves (≥ 512 bytes: the generator serves such requests in whole batches). The masks of
+    // one sharing must be independent draws: among everything a SINGLE party holds (its two shares and its
+    // junk slot) no aligned 8-byte window may occur twice — for independent uniform masks the chance is
+    // below 2^-40 per sharing — otherwise a party can cancel masks (share1 a shifted copy of share0) and
+    // recompute parts of the secret on its own.
+    {
+        let mut rng = run.rng("L");
+        let n_l = run.tier.scale(24, 200);
+        for it in 0..n_l {
+            let (st, n): (ScalarType, u64) = match it % 6 {
+                0 => (UINT64, 64),
+                1 => (UINT64, 100 + rng.below(200)),
+                2 => (UINT128, 40 + rng.below(40)),
+                3 => (BIT, 4096 + 8 * rng.below(512)),
+                4 => (INT32, 128 + rng.below(512)),
+                _ => (UINT8, 512 + rng.below(2048)),
+            };
+            let t = if it % 4 == 3 { tuple_type(vec![array_type(vec![n], st), scalar_type(UINT64)]) } else { array_type(vec![n], st) };
+            let seed = rng.seed16();
+            let warm = it % 3 == 1; // a generator that has been used before
+            let r = catch(|| -> ciphercore_base::errors::Result<Vec<Vec<u8>>> {
+                let mut prng = PRNG::new(Some(seed))?;
+                if warm {
+                    let _ = prng.get_random_value(array_type(vec![37], UINT8))?;
+                }
+                // a secret with distinct 8-byte windows of its own (so that a repetition is the masks' doing)
+                let secret = prng.get_random_value(t.clone())?;
+                let tv = TypedValue::new(t.clone(), secret)?;
+                let ps = tv.get_local_shares_for_each_party(&mut prng)?;
+                let mut out = vec![];
+                for p in ps {
+                    let mut bytes = vec![];
+                    fn flat(v: &Value, out: &mut Vec<u8>) {
+                        match v.to_vector() {
+                            Ok(vs) => {
+                                for x in vs {
+                                    flat(&x, out);
+                                }
+                            }
+                            Err(_) => out.extend(crate::vals::bytes_of(v)),
+                        }
+                    }
+                    flat(&p.value, &mut bytes);
+                    out.push(bytes);
+                }
+                Ok(out)
+            });
+            let descr = format!("large leaf {}[{}]{} seed={:?} warm={}", st_name(st), n, if it % 4 == 3 { " in a tuple" } else { "" }, seed, warm);
+            run.oracle_case(&descr, true);
+            run.count(&format!("L:leaf:{}", st_name(st)));
+            match r {
+                Ok(Ok(parties)) => {
+                    for (i, bytes) in parties.iter().enumerate() {
+                        let mut seen: std::collections::HashMap<[u8; 8], usize> = std::collections::HashMap::new();
+                        let mut rep: Option<(usize, usize)> = None;
+                        let mut reps = 0usize;
+                        for (k, w) in bytes.chunks_exact(8).enumerate() {
+                            let mut a = [0u8; 8];
+                            a.copy_from_slice(w);
+                            if let Some(k0) = seen.get(&a) {
+                                reps += 1;
+                                if rep.is_none() {
+                                    rep = Some((*k0, k));
+                                }
+                            } else {
+                                seen.insert(a, k);
+                            }
+                        }
+                        if let Some((k0, k1)) = rep {
+                            run.oracle_fail("C14:shares-of-one-party-repeat-key-stream", format!("{} : in the tuple party {} holds, the 8-byte window at byte {} occurs again at byte {} ({} repeated windows of {}): its shares are not independent uniform draws", descr, i, 8 * k0, 8 * k1, reps, bytes.len() / 8));
+                            break;
+                        }
+                    }
+                }
+                Ok(Err(e)) => run.oracle_fail("C14:large-leaf:error", format!("{} : {}", descr, e)),
+                Err(p) => run.oracle_fail("C14:panic:large-leaf", format!("{} : {}", descr, p)),
+            }
+        }
+    }
+
     // ---------------------------------------------------------------- S and P
     let mut rng = run.rng("SP");
     let n_sp = run.tier.scale(4000, 40000);
